@@ -179,6 +179,10 @@ def r2a_global_state(ctx: Context) -> None:
                     base = base.value
                     sub = True
                 if isinstance(base, ast.Name) and sub and base.id in consts and base.id not in local_names:
+                    from ..util import is_value_memo_store
+                    if is_value_memo_store(prog, f, x, base.id):
+                        ctx.ok("R2.global-state", f"{f.qualname.split(':')[1]}:value-memo:{base.id}", f"`{base.id}` is a memo keyed by value: each entry is a function of its key, a restored run recomputes the same entries")
+                        continue
                     ctx.fail("R2.global-state", f"{f.qualname.split(':')[1]}:module-store:{base.id}", f"`{src(x)[:80]}` writes module-level `{base.id}`: state outside the checkpoint", f, x)
                 if isinstance(base, ast.Attribute) and isinstance(base.value, ast.Name):
                     c = prog.class_of_name(f.module, base.value.id)
@@ -199,6 +203,10 @@ def r2a_global_state(ctx: Context) -> None:
         for d in f.node.decorator_list:
             nm = (dotted(d) or (dotted(d.func) if isinstance(d, ast.Call) else "") or "").split(".")[-1]
             if nm in ("lru_cache", "cache") and f.module.name.startswith(("black_it.samplers", "black_it.schedulers", "black_it.calibrator")):
+                from ..util import is_pure_cached_function
+                if is_pure_cached_function(prog, f):
+                    ctx.ok("R2.global-state", f"{f.qualname.split(':')[1]}:pure-cache:{nm}", f"@{nm} on a closed function whose result no caller writes to: not observable")
+                    continue
                 ctx.fail("R2.global-state", f"{f.qualname.split(':')[1]}:decorator:{nm}", f"@{nm} keeps process-wide state that a restored run does not have", f, d)
     ctx.floor("R2", "functions scanned for module/class-level writes", n, 120)
     ctx.ok("R2.global-state", "package:scanned", f"{n} functions scanned: no write to module-level or class-level state")
